@@ -1,6 +1,7 @@
 import re
 from vx.lift import Lift, Sub, Call, Members, Guard, DropStmt, TryCatch, Auto, locate, read_source, LiftError
 from vx.run import Unit
+from vx import census
 
 BULK = "libs/pika/executors/include/pika/executors/thread_pool_scheduler_bulk.hpp"
 
@@ -151,3 +152,9 @@ for k in range(0, 64):
                       doc="complete case split over the power-of-two chunk size (postcondition of get_chunk_size)"))
 
 META = {"trusted_base": [], "assumptions": [], "not_decided": []}
+
+STATIC = [
+    # A-CLOSED: tasks_remaining and exception_thrown are touched only by finish() / store_exception() (+ their declarations)
+    census.sites("bulk tasks_remaining accesses", [BULK], r"\btasks_remaining\b", 2),
+    census.sites("bulk exception_thrown accesses", [BULK], r"\bexception_thrown\b", 3),
+]
